@@ -73,7 +73,7 @@ Proof.
     pose proof (Z.square_nonneg (ax - bx)) as S1. pose proof (Z.square_nonneg (ay - by_)) as S2.
     destruct Hd as [Hd|Hd]; [assert (0 < (ax - bx) * (ax - bx)) by nia|assert (0 < (ay - by_) * (ay - by_)) by nia]; lia.
 Qed.
-Example min_width2_ex : min_width2 [(0,0); (4,0); (4,3); (0,3)] = Some (9, 16).
+Example min_width2_ex : min_width2 [(0,0); (4,0); (4,3); (0,3)] = Some (144, 16).
 Proof. vm_compute. reflexivity. Qed.
 Example mbc_ex : mbc_exact [(0,0); (4,0); (4,3); (0,3)] [(0,0); (4,0); (4,3); (0,3); (2,1)] = Some (mkCircle 4 3 2 25 4).
 Proof. vm_compute. reflexivity. Qed.
